@@ -145,3 +145,17 @@ func workTemp(prefix string) string {
 	}
 	return d
 }
+
+// retryHang wraps an observer that runs the binary under a timeout: an observation that reports a hang is made a
+// second time (in a fresh directory; every observer builds its own).  A real hang hangs again; a stall of a
+// heavily loaded machine (one HANG in 211 000 fault runs of a thorough tier that shared 16 cores with other jobs)
+// does not.  marker is the text the observation carries for a hang.
+func retryHang(obs func(string) string, marker string) func(string) string {
+	return func(in string) string {
+		out := obs(in)
+		if strings.Contains(out, marker) {
+			out = obs(in)
+		}
+		return out
+	}
+}
